@@ -755,3 +755,140 @@ func runSchedSampling(ctx *core.Ctx, pool *par.Pool) {
 	}
 	ctx.Set("random_schedules", total)
 }
+
+// ---- random histories x (abort twin | reopen twin | every header corruption) (diagnostic) ----
+
+type RandTwinTask struct {
+	Type string `json:"type"`
+	Mode string `json:"mode"` // abort | reopen | corrupt
+	Cfg  string `json:"cfg"`
+	Seed int64  `json:"seed"`
+	Len  int    `json:"len"`
+}
+
+type RandTwinResult struct {
+	EngineError string              `json:"engine_error,omitempty"`
+	Doc         interface{}         `json:"doc,omitempty"`
+	Desc        string              `json:"desc"`
+	Viol        []pagedrv.Violation `json:"viol,omitempty"`
+	Labels      []string            `json:"labels,omitempty"`
+	N           int                 `json:"n"`
+}
+
+func init() {
+	TaskHandlers["randtwin"] = handleRandTwin
+	register(&Check{ID: "XTWIN", Level: "model_checking", Replay: xstate.ReplayDoc, Run: func(ctx *core.Ctx, pool *par.Pool) { runRandTwin(ctx, pool, []string{"abort", "reopen"}) }})
+	register(&Check{ID: "XHRND", Level: "model_checking", Replay: replayCorrupt, Run: func(ctx *core.Ctx, pool *par.Pool) { runRandTwin(ctx, pool, []string{"corrupt"}) }})
+}
+
+func handleRandTwin(raw []byte) interface{} {
+	var t RandTwinTask
+	if err := json.Unmarshal(raw, &t); err != nil {
+		return RandTwinResult{EngineError: err.Error()}
+	}
+	cfg, ok := pagedrv.CfgByName(t.Cfg)
+	if !ok {
+		return RandTwinResult{EngineError: "cfg"}
+	}
+	// a clean random history that ends between transactions
+	path, err := randomPath(cfg, t.Seed, t.Len, false)
+	for len(path) > 0 {
+		k := path[len(path)-1].K
+		if k == pagedrv.OCommit || k == pagedrv.ORollback || k == pagedrv.OCloseTx || k == pagedrv.OReopen {
+			break
+		}
+		path = path[:len(path)-1]
+	}
+	if err != nil || len(path) == 0 {
+		return RandTwinResult{}
+	}
+	ignore := []string(nil)
+	if usesOverflow(path) {
+		ignore = []string{"Stats"}
+	}
+	switch t.Mode {
+	case "reopen":
+		tw := xstate.TwinTask{Type: "twin", Cfg: t.Cfg, PathA: path, PathB: append(append([]O{}, path...), O{K: pagedrv.OReopen}), Conts: twinConts, Class: "reopen", Ignore: ignore}
+		js, _ := json.Marshal(tw)
+		r := xstate.HandleTwin(js).(xstate.TwinResult)
+		return RandTwinResult{EngineError: r.EngineError, Viol: r.Viol, N: r.Compared, Desc: pagedrv.PathString(path), Doc: map[string]interface{}{"kind": "twin", "task": tw}}
+	case "abort":
+		// a random transaction body that is rolled back
+		rng := rand.New(rand.NewSource(t.Seed * 7919))
+		body := []O{{K: pagedrv.OBegin, B: int(t.Seed % 2)}}
+		bodyOps := []O{{K: pagedrv.OAlloc, A: 1}, {K: pagedrv.OAlloc, A: 7}, {K: pagedrv.OAllocAvail, A: 0}, {K: pagedrv.OWrite, A: 0}, {K: pagedrv.OWrite, A: -1}, {K: pagedrv.OWriteAll}, {K: pagedrv.OFree, A: 0},
+			{K: pagedrv.OFree, A: -1}, {K: pagedrv.OFreeEveryOther}, {K: pagedrv.OAllocFreeNew, A: 3, B: 1}, {K: pagedrv.OFlushTx}, {K: pagedrv.OCheckpoint}}
+		for i := 0; i < 1+int(t.Seed%5); i++ {
+			body = append(body, bodyOps[rng.Intn(len(bodyOps))])
+		}
+		end := O{K: pagedrv.ORollback}
+		if t.Seed%3 == 0 {
+			end = O{K: pagedrv.OCloseTx}
+		}
+		pb := append(append(append([]O{}, path...), body...), end)
+		if usesOverflow(pb) {
+			ignore = []string{"Stats"}
+		}
+		tw := xstate.TwinTask{Type: "twin", Cfg: t.Cfg, PathA: path, PathB: pb, Conts: twinConts, Class: "abort", Ignore: ignore}
+		js, _ := json.Marshal(tw)
+		r := xstate.HandleTwin(js).(xstate.TwinResult)
+		return RandTwinResult{EngineError: r.EngineError, Viol: r.Viol, N: r.Compared, Desc: pagedrv.PathString(pb), Doc: map[string]interface{}{"kind": "twin", "task": tw}}
+	default:
+		for len(path) > 0 && path[len(path)-1].K != pagedrv.OCommit && path[len(path)-1].K != pagedrv.OReopen {
+			path = path[:len(path)-1]
+		}
+		if len(path) == 0 {
+			return RandTwinResult{}
+		}
+		ct := CorruptTask{Type: "corrupt", Cfg: t.Cfg, Path: path, Both: t.Seed%4 == 0}
+		js, _ := json.Marshal(ct)
+		r := handleCorrupt(js).(CorruptResult)
+		return RandTwinResult{EngineError: r.EngineError, Viol: r.Viol, Labels: r.Labels, N: r.Images, Desc: pagedrv.PathString(path), Doc: ct}
+	}
+}
+
+func runRandTwin(ctx *core.Ctx, pool *par.Pool, modes []string) {
+	ctx.SetBudget(25 * time.Minute)
+	var tasks [][]byte
+	var meta []RandTwinTask
+	for _, mode := range modes {
+		n := int64(2000)
+		if mode == "corrupt" {
+			n = 300
+		}
+		for _, cfg := range []string{"A", "B", "D", "C"} {
+			for s := int64(1); s <= n; s++ {
+				t := RandTwinTask{Type: "randtwin", Mode: mode, Cfg: cfg, Seed: s, Len: 6 + int(s%30)}
+				raw, _ := json.Marshal(t)
+				tasks = append(tasks, raw)
+				meta = append(meta, t)
+			}
+		}
+	}
+	n, cmp := 0, 0
+	pool.Run(tasks, ctx.Deadline, 10*time.Minute, func(i int, out []byte, terr *par.TaskError) {
+		if terr != nil {
+			ctx.EngineError("randtwin %v: %s %s", meta[i], terr.Msg, terr.Stderr)
+			return
+		}
+		var r RandTwinResult
+		json.Unmarshal(out, &r)
+		n++
+		cmp += r.N
+		if r.EngineError != "" {
+			ctx.Log("randtwin %v [%s]: engine: %s", meta[i], r.Desc, r.EngineError)
+		}
+		for k, v := range r.Viol {
+			doc := r.Doc
+			if meta[i].Mode == "corrupt" && k < len(r.Labels) {
+				if m, ok := doc.(map[string]interface{}); ok {
+					m["only"] = r.Labels[k]
+					doc = map[string]interface{}{"kind": "corrupt", "task": m}
+				}
+			}
+			ctx.Violate(meta[i].Mode+"/"+v.Class, fmt.Sprintf("cfg %s seed %d [%s]: %s", meta[i].Cfg, meta[i].Seed, r.Desc, v.Msg), doc)
+		}
+	}, nil)
+	ctx.Set("histories", n)
+	ctx.Set("comparisons_or_images", cmp)
+}
